@@ -30,12 +30,19 @@ Theorem C04_exec_preserves_wf :
 Proof. exact exec_inv. Qed.
 Print Assumptions C04_exec_preserves_wf.
 
-(* the invariant is what the property lists *)
+(* the invariant is what the property lists; "fresh" = no warrior sits between a
+   Reset and its re-spawn (never the case during a battle: C04_fresh_reachable) *)
 Theorem C04_inv_observables :
-  forall s, Inv s ->
+  forall s, Inv s -> Forall fresh_w (s_ws s) ->
     (forall a, a < s_m s -> i_a (get (s_mem s) a) < s_m s /\ i_b (get (s_mem s) a) < s_m s) /\
     Forall (queue_ok (s_m s) (s_procs s)) (s_ws s) /\
     s_cycle s <= s_cycles s /\
     s_living s = Z.of_nat (length (filter alive (s_ws s))).
 Proof. exact inv_observables. Qed.
 Print Assumptions C04_inv_observables.
+
+Theorem C04_fresh_reachable :
+  forall ops s, Forall fresh_w (s_ws s) ->
+    match bsteps s ops with Panic => True | Ok s' => Forall fresh_w (s_ws s') end.
+Proof. exact bsteps_fresh. Qed.
+Print Assumptions C04_fresh_reachable.
